@@ -91,15 +91,74 @@ def textOfHex (s : String) : Option Text := do
   | some s => some (Text.ofString s)
   | none => none
 
+/-! ### definitions supplied at run time (generated programs of C11 / C12 / C06-thorough)
+
+One definition per block:
+```
+item <name> <struct|other> <generics 0|1> <fields 0|1>
+args <tok>*
+attr <ref_unit|unit> <tok>*
+end
+```
+tokens: `i:<hex>` identifier, `s:<hex>` string literal, `n:<digits>:<nfrac>:<exp>:<float 0|1>` number,
+`c` comma, `p:<code>` punctuation, `o` anything else. -/
+
+def parseTok (s : String) : Tok :=
+  match s.splitOn ":" with
+  | ["c"] => .comma
+  | ["o"] => .other
+  | ["i", h] => match textOfHex ("h" ++ h) with
+    | some t => .ident t | none => .other
+  | ["s", h] => match textOfHex ("h" ++ h) with
+    | some t => .str t | none => .other
+  | ["p", c] => match c.toNat? with
+    | some c => .punct c | none => .other
+  | ["n", d, nf, e, fl] =>
+    match d.toNat?, nf.toNat?, e.toInt? with
+    | some d, some nf, some e =>
+      let l : Lit := { digits := d, nfrac := nf, exp := e, isFloat := fl == "1" }
+      if fl == "1" then .float l else .int l
+    | _, _, _ => .other
+  | _ => .other
+
+def parseItems (lines : List String) : List RawItem :=
+  let rec go (ls : List String) (cur : Option RawItem) (acc : List RawItem) : List RawItem :=
+    match ls with
+    | [] => acc.reverse
+    | l :: rest =>
+      match l.splitOn " " with
+      | "item" :: name :: kind :: g :: f :: _ =>
+        go rest (some { args := [], attrs := [], name := Text.ofString name, isStruct := kind == "struct",
+                        hasGenerics := g == "1", hasFields := f == "1" }) acc
+      | "args" :: toks =>
+        go rest (cur.map (fun it => { it with args := (toks.filter (· != "")).map parseTok })) acc
+      | "attr" :: kind :: toks =>
+        go rest (cur.map (fun it => { it with attrs := it.attrs ++
+          [⟨if kind == "ref_unit" then .refUnit else .unit, (toks.filter (· != "")).map parseTok⟩] })) acc
+      | ["end"] => match cur with
+        | some it => go rest none (it :: acc)
+        | none => go rest none acc
+      | _ => go rest cur acc
+  go lines none []
+
+def siteStr : ErrSite → String
+  | .callSite => "callsite"
+  | .args => "args"
+  | .item => "item"
+  | .attr i => s!"attr:{i}"
+
 structure World (A : Type) where
   tables : List (String × RTable A)
   /-- definitions whose macro expansion or literals fail in this back-end -/
   failed : List (String × String)
 
-def buildWorld {A} (R : Arith A) (isF64 : Bool) : World A :=
+def buildWorld {A} (R : Arith A) (isF64 : Bool) (custom : Option (List RawItem) := none) : World A :=
   let groups : List (String × List RawItem) :=
-    [("", Gen.Catalogue.items), ("S:", Gen.Synth.items)] ++
-    (if isF64 then [("A:", Gen.Astro.items)] else [])
+    match custom with
+    | some items => [("S:", items)]
+    | none =>
+      [("", Gen.Catalogue.items), ("S:", Gen.Synth.items)] ++
+      (if isF64 then [("A:", Gen.Astro.items)] else [])
   let step (w : World A) (pfx : String) (it : RawItem) : World A :=
     let nm := pfx ++ Text.toString it.name
     match MacroFront.expand it with
@@ -845,8 +904,41 @@ def step (line impl : String) : String × Verdict :=
 end run
 
 def runWith {A} (R : Arith A) (C : Codec A) (M : ErrModel) (AT : AmtText A) (AS : AmtSer A) (isF64 : Bool) (args : List String) : IO UInt32 := do
-  let W := buildWorld R isF64
+  let custom ← match args with
+    | ["dumpf", f] => pure (some (parseItems (← IO.FS.lines f).toList))
+    | ["runf", f, _, _] => pure (some (parseItems (← IO.FS.lines f).toList))
+    | ["expandf", f] => pure (some (parseItems (← IO.FS.lines f).toList))
+    | ["typingf", f] => pure (some (parseItems (← IO.FS.lines f).toList))
+    | _ => pure none
+  let W := buildWorld R isF64 custom
+  let args := match args with
+    | ["dumpf", _] => ["dump"]
+    | ["runf", _, o, i] => ["run", o, i]
+    | a => a
   match args with
+  | ["expandf", _] =>
+    -- verdict of the macro front end (and of the literal conversion) per definition
+    for it in custom.getD [] do
+      match MacroFront.expand it with
+      | .error e => IO.println s!"err {Text.toString it.name} {siteStr e.site} {e.msg}"
+      | .ok d =>
+        match RTable.ofDef R d with
+        | none => IO.println s!"err {Text.toString it.name} literal scale literal not representable in this back-end"
+        | some _ => IO.println s!"ok {Text.toString it.name}"
+    return 0
+  | ["typingf", _] =>
+    let defs := (custom.getD []).filterMap (fun it => match MacroFront.expand it with
+      | .ok d => some (TyDecl.ofDef d) | .error _ => none)
+    let names := amountName :: defs.map (·.name)
+    for op in BinOp.all do
+      for l in names do
+        for r in names do
+          let v := match typechecks defs op l r with
+            | some t => Text.toString t | none => "-"
+          let sp := match TypingSpec.result defs op l r with
+            | some t => Text.toString t | none => "-"
+          IO.println s!"{op.sym} {Text.toString l} {Text.toString r} {v} {sp}"
+    return 0
   | ["dump"] =>
     for (n, T) in W.tables do
       IO.println s!"type {n} {regLine R C T}"
